@@ -20,6 +20,8 @@ _UNSUPPORTED_ZID_CHARS: Final[tuple[str, ...]] = (
     "q",
     "y",
 )
+# Stored in place of a date's next ID once its very last ID has been handed out.
+_OUT_OF_IDS: Final = ""
 
 
 class ZIDManager:
@@ -36,8 +38,18 @@ class ZIDManager:
         date_part = date.strftime("%Y%m%d")[2:]
         next_id_map = self._next_id_map
         id_part = next_id_map.get(date_part, "00")
+        if id_part == _OUT_OF_IDS:
+            raise RuntimeError(
+                f"Ran out of zorg IDs to allocate! | date={date_part}"
+            )
+        try:
+            next_id_part = _get_next_id(id_part)
+        except RuntimeError:
+            # {id_part} is the last ID of this date: it can still be handed
+            # out, but nothing comes after it.
+            next_id_part = _OUT_OF_IDS
         # pylint: disable=unsupported-assignment-operation
-        next_id_map[date_part] = _get_next_id(id_part)
+        next_id_map[date_part] = next_id_part
         self._write_to_disk(next_id_map)
         return f"{date_part}#{id_part}"
 
